@@ -4,7 +4,7 @@
    table [emitted : list (ty * field)] regenerated from the code on every run (Gen/ChildrenTable.v). *)
 From Coq Require Import List NArith Bool.
 Import ListNotations.
-Open Scope N_scope.
+Local Open Scope N_scope.
 
 Inductive gtree := GNode (id : N) (ty : N) (kids : list (N * list gtree)).
 
